@@ -242,6 +242,16 @@ func planKey(r *rand.Rand, idx int, maxTTL int) *keyPlan {
 	case 10:
 		p.follow = "TTL read"
 		p.setup = append(p.setup, cmdOf("TTL", k))
+	case 11:
+		// a value without deadline renamed onto this key replaces value AND deadline
+		p.follow = "RENAME of a key without deadline onto it (removes deadline)"
+		p.setup = append(p.setup, createCmd(p.typ, k+":src"), cmdOf("RENAME", k+":src", k))
+		p.control = true
+	case 12:
+		// a value with a far deadline renamed onto this key brings its own deadline
+		p.follow = "RENAME of a key with a far deadline onto it (replaces deadline)"
+		p.setup = append(p.setup, createCmd(p.typ, k+":src"), cmdOf("EXPIRE", k+":src", "100000"), cmdOf("RENAME", k+":src", k))
+		p.control = true
 	}
 	// probes
 	ps := probesByType[p.typ]
@@ -349,7 +359,14 @@ func worker(o *common.Opts) {
 			out.Commands++
 			tm := model.Time{T0: t0.Unix(), T1: t1.Unix(), Ms0: t0.UnixMilli(), Ms1: t1.UnixMilli()}
 			report := func(kind, want, got string) {
-				sig := kind + "|" + strings.ToUpper(cmd[0]) + "|" + p.typ + "|" + phase + "|" + p.attach + "|" + p.follow
+				ph := phase
+				if strings.HasPrefix(ph, "post") {
+					ph = "post"
+				}
+				sig := kind + "|" + strings.ToUpper(cmd[0]) + "|" + ph
+				if p.control {
+					sig += "|control:" + p.follow
+				}
 				p.poisoned = true
 				if seen[sig] {
 					return
@@ -430,7 +447,7 @@ func worker(o *common.Opts) {
 				continue
 			}
 			D := S + int64(p.ttl)
-			if v := db.Keys[p.key]; v != nil && v.HasDead {
+			if v := db.Keys[p.key]; v != nil && v.HasDead && !p.control {
 				D = v.Dmin
 				if v.Dmin != v.Dmax || D > S+int64(*fMaxTTL) || D <= S {
 					continue // setup slipped over a second boundary, or a far deadline: not probed in this round
